@@ -16,22 +16,22 @@ Proof. unfold q_walk. apply take_count_all. lia. Qed.
 Lemma sim_step cap o q l :
   R cap q l ->
   R cap (fst (q_step o q)) (fst (spec_step cap o l)) /\
-  (1 <= cap -> snd (q_step o q) = snd (spec_step cap o l)).
+  snd (q_step o q) = snd (spec_step cap o l).
 Proof.
   intro H. destruct o as [it|h|c]; simpl.
   - destruct (sim_push cap q l it H) as [HR HE].
     destruct (q_push it q) as [q' e], (spec_push cap it l) as [l' e']. simpl in *.
-    split; auto. intro Hc. destruct HE as [->|(Hc0 & _)]; [reflexivity|lia].
+    split; auto. now subst.
   - destruct (sim_remove cap q l h H) as [HR HE].
     destruct (q_remove h q) as [q' e], (spec_remove h l) as [l' e']. simpl in *.
-    split; auto. intros _. now subst.
-  - split; auto. intros _. now rewrite (walk_sim cap q l c H).
+    split; auto. now subst.
+  - split; auto. now rewrite (walk_sim cap q l c H).
 Qed.
 
 Lemma sim_run cap ops : forall q l,
   R cap q l ->
   R cap (fst (q_run ops q)) (fst (spec_run cap ops l)) /\
-  (1 <= cap -> snd (q_run ops q) = snd (spec_run cap ops l)).
+  snd (q_run ops q) = snd (spec_run cap ops l).
 Proof.
   induction ops as [|o ops IH]; intros q l H; simpl.
   - auto.
@@ -39,7 +39,7 @@ Proof.
     destruct (q_step o q) as [q1 r], (spec_step cap o l) as [l1 r']. simpl in *.
     destruct (IH q1 l1 HR) as [HR2 HE2].
     destruct (q_run ops q1) as [q2 rs], (spec_run cap ops l1) as [l2 rs']. simpl in *.
-    split; auto. intro Hc. now rewrite HE, HE2.
+    split; auto. now rewrite HE, HE2.
 Qed.
 
 Definition spec_final (cap : Z) (ops : list op) : list item := fst (spec_run cap ops []).
@@ -48,12 +48,11 @@ Lemma R_final cap ops : R cap (q_final cap ops) (spec_final cap ops).
 Proof. apply sim_run. apply R_new. Qed.
 
 Lemma refines cap ops :
-  1 <= cap ->
   snd (q_run ops (newq cap)) = snd (spec_run cap ops []) /\
   q_walk 0 (q_final cap ops) = spec_final cap ops.
 Proof.
-  intro Hc. split.
-  - apply sim_run; auto. apply R_new.
+  split.
+  - apply sim_run. apply R_new.
   - rewrite walk0_contents. apply (R_cont _ _ _ (R_final cap ops)).
 Qed.
 
@@ -139,11 +138,11 @@ Proof.
   intros q w r w' He. pose proof (R_final cap ops) as H. fold q in H.
   destruct (sim_push cap q _ it H) as [HR HE]. fold r in HR, HE.
   assert (HE' : snd (spec_push cap it (spec_final cap ops)) = ENone).
-  { destruct HE as [E|(_ & _ & E & _)]; congruence. }
+  { rewrite <- HE. exact He. }
   unfold w', w. rewrite !walk0_contents.
   rewrite (R_cont _ _ _ HR), (R_cont _ _ _ H), (R_size _ _ _ H).
   apply spec_push_rule.
-  destruct (spec_push cap it (spec_final cap ops)) as [l' e]. simpl in *. now subst.
+  destruct (spec_push cap it (spec_final cap ops)) as [l' e]. simpl in HE' |- *. now rewrite HE'.
 Qed.
 
 Lemma reject_unchanged_R cap q l it :
@@ -278,20 +277,10 @@ Proof.
   split; constructor.
 Qed.
 
-(** ** Push never panics — except for capacities <= 0 *)
-Definition C24_push_total_full : Prop :=
-  forall cap ops it, snd (q_push it (q_final cap ops)) <> EPanic.
-
-Lemma push_total_refuted : ~ C24_push_total_full.
+(** ** Push never panics, whatever the capacity *)
+Lemma push_total cap ops it : snd (q_push it (q_final cap ops)) <> EPanic.
 Proof.
-  intro H. apply (H 0 [] (mkItem 0 1 0 1 0)). vm_compute. reflexivity.
-Qed.
-
-Lemma push_total_partial cap ops it :
-  (1 <=? cap) = true -> snd (q_push it (q_final cap ops)) <> EPanic.
-Proof.
-  intro Hc. apply Z.leb_le in Hc.
-  destruct (sim_push cap _ _ it (R_final cap ops)) as [_ [E|(Hc0 & _)]]; [|lia].
+  destruct (sim_push cap _ _ it (R_final cap ops)) as [_ E].
   rewrite E. unfold spec_push.
   destruct (spec_exist _ _); [discriminate|].
   destruct (_ <? _); [discriminate|].
@@ -332,5 +321,8 @@ Example ex_remove :
   q_walk 0 (fst (q_remove 0%N q)) = [ex_c; ex_b].
 Proof. vm_compute. repeat split. Qed.
 
-Example ex_partial_guard : (1 <=? 2) = true /\ snd (q_push ex_a (q_final 2 ex_ops)) = EFull.
+(** capacity 0 and -1: every Push is answered ErrMemFull, nothing changes. *)
+Example ex_cap_nonpositive :
+  q_run [OPush ex_a; OWalk 0; OPush ex_c] (newq 0) = (newq 0, [RErr EFull; RList []; RErr EFull]) /\
+  q_run [OPush ex_a; OWalk 0; OPush ex_c] (newq (-1)) = (newq (-1), [RErr EFull; RList []; RErr EFull]).
 Proof. vm_compute. split; reflexivity. Qed.
